@@ -4,6 +4,7 @@ package main
 
 import (
 	"fmt"
+	"go/token"
 	"go/types"
 	"strings"
 )
@@ -239,6 +240,7 @@ func checkSigningString(c *Ctx, t *Terminal, fname, label string, sg *Event, qs 
 				continue
 			}
 			arr = inner.X
+			_ = arr
 			if params[i] == nil {
 				params[i] = &kv{}
 			}
@@ -289,54 +291,91 @@ func checkSigningString(c *Ctx, t *Terminal, fname, label string, sg *Event, qs 
 		if okVals {
 			c.ok("C14-R4", fname, "signed values are the values sent ["+label+"]", pos, "Get(qs, key) / same value")
 		}
-		// writer loop: WriteString(sb, (QueryEscape(P[*][0]) + "=") + QueryEscape(P[*][1])), '&' separator, whole array
-		good, sep := false, false
+		// writer loop: per generic iteration the buffer receives [ "&" unless first ] QueryEscape(k) "=" QueryEscape(v)
+		// (in one or several writes), over the whole ordered table
+		var parts []string
+		sep := false
+		var flatten func(v Val) []Val
+		flatten = func(v Val) []Val {
+			if b, ok := v.(*BinV); ok && b.Op == token.ADD {
+				return append(flatten(b.X), flatten(b.Y)...)
+			}
+			return []Val{v}
+		}
+		piece := func(v Val) string {
+			if cv, ok := v.(*CallV); ok && cv.Callee == "net/url.QueryEscape" {
+				return "QE(" + ap(cv.Args[0]) + ")"
+			}
+			return ap(v)
+		}
+		okWriters := true
 		for _, e := range t.St.events {
 			if e.Kind != EvCall || len(e.Args) == 0 || e.Args[0].Key() != sb.Key() {
 				continue
 			}
 			switch shortName(e.Callee) {
 			case "(*bytes.Buffer).WriteString":
-				if arr != nil {
-					el := apLval(mkIndexAddr(arr, &LoopPhiV{}, nil))
-					_ = el
+				for _, f := range flatten(e.Args[1]) {
+					if s, ok := constString(f); ok && s == "&" && len(parts) == 0 {
+						sep = true
+						continue
+					}
+					parts = append(parts, piece(f))
 				}
-				a := ap(e.Args[1])
-				good = strings.HasPrefix(a, "((net/url.QueryEscape(") && strings.Contains(a, `[*][0]) + "=") + net/url.QueryEscape(`) && strings.HasSuffix(a, "[*][1]))")
-				if !good {
-					c.bad("C14-R1", fname, "pair written as QueryEscape(k)=QueryEscape(v) ["+label+"]", c.P.InstrPos(e.Instr), "signing string fragment is "+a)
+			case "(*bytes.Buffer).WriteByte", "(*bytes.Buffer).WriteRune":
+				switch ap(e.Args[1]) {
+				case "38":
+					if len(parts) == 0 {
+						sep = true
+					} else {
+						parts = append(parts, `"&"`)
+					}
+				case "61":
+					parts = append(parts, `"="`)
+				default:
+					parts = append(parts, "byte:"+ap(e.Args[1]))
 				}
-			case "(*bytes.Buffer).WriteByte":
-				sep = ap(e.Args[1]) == "38"
 			case "(*bytes.Buffer).Len", "(*bytes.Buffer).String":
 			default:
+				okWriters = false
 				c.bad("C14-R1", fname, "signing buffer writer "+shortName(e.Callee)+" ["+label+"]", c.P.InstrPos(e.Instr), "unexpected writer to the signing string buffer")
 			}
 		}
+		good := okWriters && len(parts) == 3 && strings.HasPrefix(parts[0], "QE(") && strings.HasSuffix(parts[0], "[*][0])") && parts[1] == `"="` &&
+			strings.HasPrefix(parts[2], "QE(") && strings.HasSuffix(parts[2], "[*][1])") && strings.TrimSuffix(parts[0], "[0])") == strings.TrimSuffix(parts[2], "[1])")
 		a := t.atoms()
-		exhausted := false
+		exhausted, through := false, false
 		for k := range a {
-			if strings.HasPrefix(k, "!(((i* + 1) + 1) < ") {
+			if strings.HasPrefix(k, "!(((i* + 1) + 1) < ") || strings.HasPrefix(k, "!((i* + 1) < ") {
 				exhausted = true
 			}
-		}
-		c.check(good && exhausted, "C14-R1", fname, "signing string = QueryEscape pairs over the whole ordered table ["+label+"]", pos, "k=v pairs", "the signing string is not the QueryEscape'd pairs of the whole ordered table")
-		lenPos, lenZero := false, false
-		for k := range a {
-			if strings.HasPrefix(k, "0 < (*bytes.Buffer).Len(") {
-				lenPos = true
+			if strings.HasPrefix(k, "(i* + 1) < ") || strings.HasPrefix(k, "i* < ") {
+				through = true
 			}
-			if strings.HasPrefix(k, "!(0 < (*bytes.Buffer).Len(") {
-				lenZero = true
+		}
+		if !through {
+			c.bad("C14-R1", fname, "signing string written by a loop over the ordered table ["+label+"]", pos, "no generic iteration over the parameter table on this path")
+			return
+		}
+		c.check(good && exhausted, "C14-R1", fname, "signing string = QueryEscape(k)=QueryEscape(v) pairs over the whole ordered table ["+label+"]", pos, strings.Join(parts, " "),
+			"per iteration the signing buffer receives ["+strings.Join(parts, " ")+"], want [QE(key) \"=\" QE(value)] over the whole ordered table")
+		// separator: written exactly when this is not the first pair (buffer non-empty / index > 0)
+		notFirst, first := false, false
+		for k := range a {
+			if strings.HasPrefix(k, "0 < (*bytes.Buffer).Len(") || k == "0 < i*" || k == "0 < (i* + 1)" {
+				notFirst = true
+			}
+			if strings.HasPrefix(k, "!(0 < (*bytes.Buffer).Len(") || k == "!(0 < i*)" || k == "!(0 < (i* + 1))" {
+				first = true
 			}
 		}
 		switch {
-		case lenPos:
-			c.check(sep, "C14-R1", fname, "pairs joined by '&' ["+label+"]", pos, "& written when the buffer is non-empty", "pairs are not joined by '&'")
-		case lenZero:
+		case notFirst:
+			c.check(sep, "C14-R1", fname, "pairs joined by '&' ["+label+"]", pos, "& written when this is not the first pair", "pairs are not joined by '&'")
+		case first:
 			c.check(!sep, "C14-R1", fname, "no leading '&' ["+label+"]", pos, "first pair has no separator", "a separator is written before the first pair")
 		default:
-			c.bad("C14-R1", fname, "separator decided by buffer length ["+label+"]", pos, "the '&' separator is not conditional on the buffer being non-empty")
+			c.bad("C14-R1", fname, "separator decided by position ["+label+"]", pos, "the '&' separator is not conditional on the pair being the first one")
 		}
 		return
 	}
